@@ -502,7 +502,7 @@ func TestC19Rapid(t *testing.T) {
 				rt.Fatalf("C19 violated at step %d: %s\nhistory:\n%s", i, fmt.Sprintf(f, a...), strings.Join(w.log, "\n"))
 			}
 			pre := w.chanStates()
-			op := drawWeighted(rt, "op", []weighted{{"create", 4}, {"metadata", 5}, {"challenger", 3}, {"use-channel", 1}})
+			op := drawWeighted(rt, "op", []weighted{{"create", 4}, {"metadata", 5}, {"challenger", 3}, {"use-channel", 1}, {"other-role", 2}})
 			if len(w.bridges) == 0 {
 				op = "create"
 			}
@@ -518,6 +518,36 @@ func TestC19Rapid(t *testing.T) {
 					w.logf("channel %s/%s sends a packet", ch.port, ch.channel)
 				}
 				return
+			case "other-role":
+				// the other role messages of a bridge (proposer rotation, batch info): they say nothing about channels,
+				// so no admin changes - and the bridge's list is still the one later challenger updates hand over
+				b := w.bridges[rapid.IntRange(0, len(w.bridges)-1).Draw(rt, "bridge")]
+				var r henv.Result
+				if rapid.Bool().Draw(rt, "proposerOrBatch") {
+					nu := w.users[rapid.IntRange(0, 3).Draw(rt, "newprop")]
+					r = w.e.Deliver(ophosttypes.NewMsgUpdateProposer(rapid.SampledFrom([]string{b.proposer, w.e.Authority}).Draw(rt, "psigner"), b.id, nu.Str))
+					w.logf("update-proposer(bridge=%d -> %s) -> %v", b.id, short(nu.Str), r.Err)
+					if r.OK() {
+						b.proposer = nu.Str
+					}
+				} else {
+					bi := ophosttypes.BatchInfo{Submitter: w.users[rapid.IntRange(0, 3).Draw(rt, "submitter")].Str, ChainType: ophosttypes.BatchInfo_CHAIN_TYPE_CELESTIA}
+					r = w.e.Deliver(ophosttypes.NewMsgUpdateBatchInfo(rapid.SampledFrom([]string{b.proposer, w.e.Authority}).Draw(rt, "bsigner"), b.id, bi))
+					w.logf("update-batch-info(bridge=%d) -> %v", b.id, r.Err)
+				}
+				if !r.OK() {
+					fail("a role update by the proposer or the authority failed: %v", r.Err)
+				}
+				for ch, s := range w.chanStates() {
+					if pre[ch].admin != s.admin {
+						fail("a proposer / batch-info update of bridge %d changed the admin of %s/%s from %q to %q", b.id, ch.port, ch.channel, pre[ch].admin, s.admin)
+					}
+				}
+				if cfg, err := w.e.K.GetBridgeConfig(w.e.Ctx, b.id); err != nil || string(cfg.Metadata) != string(b.metadata) {
+					fail("after a proposer / batch-info update the stored metadata of bridge %d is %q, the last accepted metadata was %q", b.id, truncStr(string(cfg.Metadata), 100), truncStr(string(b.metadata), 100))
+				}
+				c.Class("proposer-or-batch-info-update")
+				shape += "o"
 			case "create":
 				prop, chal := w.users[rapid.IntRange(0, 3).Draw(rt, "prop")], w.users[rapid.IntRange(0, 3).Draw(rt, "chal")]
 				if len(w.bridges) > 0 && rapid.Bool().Draw(rt, "sameChallengerAsAnotherBridge") {
